@@ -31,9 +31,10 @@ BATCH_RATES = {
     "K5": (0.28, 0.05, 0.03, 0.00, 0.00),   # scripted: one op of the alphabet - produce; disturb; re-ask
     "K6": (0.10, 0.00, 0.00, 0.00, 0.00),   # scripted: one table, one fault at a chosen point, then re-ask
     "K7": (0.00, 0.00, 0.00, 0.00, 0.00),   # scripted: tour over many tables with re-visits (cache capacity / key mix-ups)
+    "K9": (0.00, 0.00, 0.00, 0.00, 0.00),   # scripted: entry sweep of one stabilizer table after other tables were loaded
     "K8": (0.20, 0.00, 0.00, 0.00, 0.00),   # scripted: one op hammered 20-150 times (same request / many requests), then re-ask
 }
-SCRIPTED = ("K5", "K6", "K7", "K8")
+SCRIPTED = ("K5", "K6", "K7", "K8", "K9")
 
 
 def splitmix64(*parts):
@@ -197,6 +198,8 @@ class Generator:
             self._script_k6(job["table"], job["fault"])
         elif batch == "K7":
             self._script_k7()
+        elif batch == "K9":
+            self._script_k9(job["n"], job["conn"], job["preload"], job["ids"])
         elif batch == "K8":
             self._script_k8(job["op"], job.get("kmode", "same"))
 
@@ -385,7 +388,17 @@ class Generator:
             k = r.randint(1, min(2, n))
             sub = Lt.qc(k, Lt.random_clifford_ops(r, k, r.randint(1, 4)))
             ops.insert(r.randrange(len(ops) + 1), ("layer", r.sample(range(n), k), [], [], sub))
-        return self.lit(Lt.qc(n, ops, qregs=qregs))
+        cregs = ()
+        if r.random() < self.cfg.get("qc_measured", 0.06):
+            # a circuit already prepared for execution: final measurements into the caller's own classical register
+            # (what measure_all() or a hand-written read-out leaves behind)
+            qs = list(range(n)) if r.random() < 0.6 else sorted(r.sample(range(n), r.randint(1, n)))
+            cname = r.choice(["meas", "c", "out"])
+            cregs = [(cname, len(qs))]
+            if cname == "meas":
+                ops.append(("barrier", list(range(n))))
+            ops += [("measure", [q], [k]) for k, q in enumerate(qs)]
+        return self.lit(Lt.qc(n, ops, cregs=cregs, qregs=qregs))
 
     def need_graph(self, ex, n):
         r = self.rng
@@ -1360,6 +1373,20 @@ class Generator:
         def drop(sid):
             return {"id": self._id(), "kind": "drop", "ref": sid}
 
+        def edit_then_drop(sid):
+            def go(ex2):
+                m = ex2.meta.get(sid)
+                cands = [(path, kind, hint) for path, kind, al, hint in (m["subs"] if m else []) if kind != "tuple"]
+                out = []
+                if cands:
+                    path, kind, hint = self.rng.choice(cands)
+                    mut, params = self._draw_mutation(kind, hint, m, path)
+                    if mut is not None:
+                        out.append({"id": self._id(), "kind": "mutate", "target": {"ref": sid, "path": path},
+                                    "mut": mut, "params": params})
+                return out + [drop(sid)]
+            return go
+
         def same(ex):
             steps = self._reach(opname)(ex)
             hit = [st for st in steps if st["kind"] == "call" and st["op"] == opname]
@@ -1376,7 +1403,10 @@ class Generator:
                 again["id"] = self._id()
                 out.append(again)
                 if k < N - 1:
-                    out.append(drop(again["id"]))
+                    if r.random() < 0.12:
+                        out.append(edit_then_drop(again["id"]))     # a caller that edits what it got before letting go
+                    else:
+                        out.append(drop(again["id"]))
                 if k in nb_at:
                     out += self._neighbour_calls(call)
                 last = again
@@ -1407,6 +1437,25 @@ class Generator:
                 return again + ([self._after_call(hit[-1], rounds=2)] if hit else [])
             return out + [revisit]
         self.queue.append(same if mode == "same" else many)
+
+    def _script_k9(self, n, conn, preload, ids):
+        """Entry sweep: the tables in `preload` (same qubit count; the target table among them or not) are loaded in the
+        given order by one ordinary request each, then EVERY listed class id of the target table is looked up and its
+        circuit parsed, each judged against the fresh interpreter. What a store shared between tables (templates pooled
+        across connectivities, interned strings, 'last loaded wins' registries) needs in order to show: it goes wrong for
+        a few entries only, after a particular load order - random requests practically never name those entries."""
+        r = self.rng
+        self.cfg.update({"ns": [n], "conns": {n: sorted(set(preload) | {conn})}, "p_invalid": 0.0, "length": 0})
+        if n not in self.cfg["groups"]:
+            self.cfg["groups"][n] = [Lt.random_group(r, n) for _ in range(2)]
+        for c in preload:
+            self.queue.append(lambda ex, c=c: self.gen_sibling(ex, f"stabilizer{n}-{c}"))
+        for cid in ids:
+            look = self._call("lookup.stabilizer_circuit_lookup", [self.lit(n), self.lit(conn), self.lit(cid)])
+            parse = self._call("lookup.info_parse_circuit", [self.ref(look["id"])])
+            self.queue += [look, parse, {"id": self._id(), "kind": "drop", "ref": parse["id"]},
+                           {"id": self._id(), "kind": "drop", "ref": look["id"]}]
+        self.script_note = "reached"
 
     def _script_k6(self, table, fault):
         """One table, cold; one fault at a chosen point of the call that loads it; then ask again (same
